@@ -530,6 +530,38 @@ def run_templates(ctx, fmts):
                     ctx.violation(case, {"parsed_document": repr(got)[:500]}, {"basic_form": repr(want)[:500]}, "members of a subclass instance are lost in the format document", lambda f: False)
             except Exception as e:  # noqa
                 ctx.violation(case, {"error": f"{type(e).__name__}: {e}"[:300]}, "format mixin encodes subclass instances", "format mixin failed on a subclass instance", lambda f: False)
+            # a call-time dialect that overrides nothing, used through the basic form first and then through the format
+            # (and in the reverse order): every format keeps its own native leaves whatever was compiled before
+            from mashumaro.config import ADD_DIALECT_SUPPORT, BaseConfig
+
+            class Quiet(Dialect):
+                serialize_by_alias = False
+
+            for order in ("dict-first", "format-first"):
+                DS = dcm(f"DS_{fname}_{order.split('-')[0]}", (Mixin,), {"payload": bytes, "when": datetime.datetime, "day": datetime.date, "opt": typing.Optional[int]},
+                         {"opt": None, "Config": type("Config", (BaseConfig,), {"code_generation_options": [ADD_DIALECT_SUPPORT]})})
+                dv = DS(payload=b"\x00\xff", when=datetime.datetime(2024, 2, 29, 1, 2, 3), day=datetime.date(2024, 2, 29))
+                case = {"template": f"call-time dialect through two formats of one class ({order})", "format": fname}
+                ctx.count(case, True, kind=f"template:{fname}")
+                try:
+                    steps = [lambda: dv.to_dict(dialect=Quiet), lambda: getattr(dv, to_m)(dialect=Quiet)]
+                    if order == "format-first":
+                        steps.reverse()
+                    outs = [st() for st in steps]
+                    if order == "format-first":
+                        outs.reverse()
+                    basic, doc = outs
+                    if not deep_eq(basic, dv.to_dict()):
+                        ctx.violation(case, {"to_dict_with_dialect": repr(basic)[:300]}, {"to_dict": repr(dv.to_dict())[:300]}, "the basic form changed after the format method was compiled for the same dialect", lambda f: False)
+                    if not deep_eq(render_natives(F["parse"](doc)), render_natives(F["parse"](getattr(dv, to_m)()))):
+                        ctx.violation(case, {"document_with_dialect": repr(doc)[:300]}, {"document": repr(getattr(dv, to_m)())[:300]}, "format document under a dialect that overrides nothing differs from the plain format document", lambda f: False)
+                    back = [getattr(DS, from_m)(doc, dialect=Quiet), DS.from_dict(basic, dialect=Quiet)]
+                    if order == "format-first":
+                        back = [DS.from_dict(basic, dialect=Quiet), getattr(DS, from_m)(doc, dialect=Quiet)]
+                    if any(x != dv for x in back):
+                        ctx.violation(case, {"decoded": repr(back)[:400]}, {"original": repr(dv)[:300]}, "decode(encode(v)) != v under a call-time dialect", lambda f: False)
+                except Exception as e:  # noqa
+                    ctx.violation(case, {"error": f"{type(e).__name__}: {e}"[:300]}, "format mixin honours a call-time dialect", "call-time dialect through two formats failed", lambda f: False)
             # a user default_dialect that re-defines one of the format's native types: the user's wins, in both directions
             class Hex(Dialect):
                 serialization_strategy = {
@@ -579,6 +611,9 @@ def gen_cases(ctx, n, depth):
 PACKF_FLAVOURS = {
     "msgpack": ("mashumaro.mixins.msgpack", "DataClassMessagePackMixin", "to_msgpack", "__mashumaro_to_dict_msgpack__"),
     "orjson": ("mashumaro.mixins.orjson", "DataClassORJSONMixin", "to_jsonb", "__mashumaro_to_dict_jsonb__"),
+    # plain dataclasses (no mixin) held by a DataClassDictMixin class: their to_dict method too is compiled on demand,
+    # for the annotated class, when the holder is compiled
+    "plain-dict": ("mashumaro", "DataClassDictMixin", "to_dict", "__mashumaro_to_dict__"),
 }
 
 
@@ -622,7 +657,8 @@ def run_packf(ctx, hs):
         Mixin = getattr(importlib.import_module(modname), cname)
         m = _types.ModuleType(f"c04_packf_{ctx.evaluations}_{len(metas)}")
         sys.modules[m.__name__] = m
-        parse = (lambda b: __import__("msgpack").unpackb(b)) if h["flavour"] == "msgpack" else (lambda b: __import__("orjson").loads(b))
+        parse = {"msgpack": lambda b: __import__("msgpack").unpackb(b), "orjson": lambda b: __import__("orjson").loads(b), "plain-dict": lambda b: b}[h["flavour"]]
+        plain = h["flavour"] == "plain-dict"
         cls, parents, hold = {}, {}, {}
         outs, own = [], []
         case = {"packf": h}
@@ -631,7 +667,7 @@ def run_packf(ctx, hs):
                 if "d" in e:
                     i, p = e["d"]
                     parents[i] = p
-                    c = type(f"K{i}", (cls[p],) if p is not None else (Mixin,), {"__annotations__": {f"f{i}": int}, f"f{i}": 100 + i, "__module__": m.__name__})
+                    c = type(f"K{i}", (cls[p],) if p is not None else (() if plain else (Mixin,)), {"__annotations__": {f"f{i}": int}, f"f{i}": 100 + i, "__module__": m.__name__})
                     setattr(m, c.__name__, c)
                     cls[i] = dataclasses.dataclass(c, kw_only=True)
                 elif "h" in e:
@@ -659,7 +695,7 @@ def run_packf(ctx, hs):
                 ctx.violation({"packf": {**h, "events": h["events"]}, "pack": k}, {"observed": o, "instance_of": e["p"][1]},
                               "an instance is encoded with all members of its own class in every format (as to_dict does)", "members of a subclass instance are lost in the format document", lambda f: False)
                 break
-        lines.append({"op": "packf", "events": h["events"]})
+        lines.append({"op": "packf", "events": h["events"], "plain": plain})
         metas.append((case, outs, own))
     res = ctx.model(lines) if lines else []
     for (case, outs, own), mo in zip(metas, res or []):
